@@ -220,11 +220,15 @@ class GroupValidator:
                     validation_issues += ErrorHandler.format_error(error_code, child)
                 else:
                     error_code = ValidationErrors.HED_TAG_REPEATED_GROUP
+                    # Walk to the first tag anywhere inside (an empty group may sort first), counting the levels.
                     found_group = child
                     base_steps_up = 0
-                    while isinstance(found_group, list) and found_group:
-                        found_group = found_group[0]
-                        base_steps_up += 1
+                    pending = [(child, 0)]
+                    while pending:
+                        found_group, base_steps_up = pending.pop()
+                        if not isinstance(found_group, list):
+                            break
+                        pending.extend((item, base_steps_up + 1) for item in reversed(found_group))
                     if isinstance(found_group, list):
                         # Only empty groups inside: there is no tag to anchor a report on (they are reported as empty).
                         prev_child = child
